@@ -1790,7 +1790,9 @@ class ForAll(BinaryOperator):
         used_outside = self._ids_of_variables_used_outside_
         # the variables of a sub-query inside the condition that nothing else refers to are the sub-query's own: it is
         # evaluated (it looks for ITS solutions) under every value of the universal, they are not bound from outside.
-        outside_sub_queries = self._ids_of_variables_referred_to_by_(self.condition, set(), skip=(ResultQuantifier,))
+        # Neither are the variables a concatenation is collected over: it stands for all of their bindings.
+        outside_sub_queries = self._ids_of_variables_referred_to_by_(self.condition, set(),
+                                                                      skip=(ResultQuantifier, Concatenate))
         for variable_id in list(free):
             if variable_id not in outside_sub_queries and variable_id not in used_outside:
                 del free[variable_id]
